@@ -633,3 +633,22 @@ mut("C10", "startup_scan_every_frame_after", "initial relation scan runs after r
     ("src/server/related_entities.rs", "                .before(super::send_replication)", "                .after(super::send_replication)"))
 mut("C10", "resize_only_first_client", "only clients with pending mutations get their group buffers resized", ["resize-every-client"],
     ("src/server.rs", "        mutations.resize_related(related_entities.graphs_count());", "        if !updates.is_empty() {\n            mutations.resize_related(related_entities.graphs_count());\n        }"))
+mut("C09", "reintroduce_d16_pool_not_cleared", "queued messages of the old session go back into the pool uncleared", ["ClientEventQueue.buffer"],
+    ("src/shared/event/server_event/client_event_queue.rs", "            messages.clear();\n            self.buffer.push(messages);", "            self.buffer.push(messages);"))
+mut("C09", "entity_buffer_not_cleared_when_taken", "entity lists taken from the pool keep the previous message's entities", ["EntityBuffer"],
+    ("src/shared/replication/client_ticks.rs", "        let mut entities = entity_buffer.pop().unwrap_or_default();\n        entities.clear();", "        let mut entities = entity_buffer.pop().unwrap_or_default();"))
+mut("C09", "removal_ids_pooled_uncleared", "removal id lists are pooled without clearing", ["RemovalBuffer.ids_buffer"],
+    ("src/server/removal_buffer.rs", """        self.ids_buffer
+            .extend(self.removals.drain().map(|(_, mut components)| {
+                components.clear();
+                components
+            }));
+    }
+}
+
+#[cfg(test)]""", """        self.ids_buffer
+            .extend(self.removals.drain().map(|(_, components)| components));
+    }
+}
+
+#[cfg(test)]"""))
